@@ -150,6 +150,13 @@ def evaluate(ctx: Ctx, inst: dict, rng: random.Random) -> None:
             clamp.update_params([t])
             if vdist(clamp.position, circ.get_point(t)) > tol:
                 bad("CurveClamp:off-curve", "position is not the curve's point for the parameter")
+        # a rough starting estimate is only where the search begins: the clamp still reports where it was created
+        guess = rng.choice([-0.4, 0.3, 0.6])
+        clamp = guarded("CurveClamp", lambda: cb.CurveClamp(clamp_pos, circ, guess))
+        ctx.evaluated()
+        if clamp is not None and vdist(clamp.position, P["l0"]) > 1e-3 * size:
+            bad("CurveClamp:initial:with-estimate", f"created with a starting estimate, the clamp is {vdist(clamp.position, P['l0']) / size:.3g} sizes "
+                "from the closest point of the curve")
     clamp = guarded("FreeClamp", lambda: cb.FreeClamp(P["f0"]))
     if clamp is not None and vdist(clamp.position, P["f0"]) > 1e-9 * size:
         bad("FreeClamp:initial", "a free clamp does not report the position it was created at")
@@ -168,3 +175,9 @@ def evaluate(ctx: Ctx, inst: dict, rng: random.Random) -> None:
         clamp.update_params(prm)
         if vdist(clamp.position, surf(prm)) > 1e-9 * size:
             bad("ParametricSurfaceClamp:off-surface", "position is not the surface point of its parameters")
+    est = [(a0 + rng.choice([-0.4, 0.5])) * scale, (0.5 + rng.choice([-0.3, 0.4])) * scale]
+    clamp = guarded("ParametricSurfaceClamp", lambda: cb.ParametricSurfaceClamp(spos, surf, [[-4 * scale, 4 * scale], [-4 * scale, 4 * scale]], est))
+    ctx.evaluated()
+    if clamp is not None and vdist(clamp.position, spos) > 1e-2 * size:
+        bad("ParametricSurfaceClamp:initial:with-estimate", f"created with a starting estimate, the clamp is {vdist(clamp.position, spos) / size:.3g} sizes "
+            "from the surface point it was created at")
